@@ -34,6 +34,12 @@ type c19Inv struct {
 	RefKey    string          `json:"-"`
 	HasLink   bool            `json:"has_link,omitempty"`
 	Sibling   bool            `json:"sibling,omitempty"` // files with names derived from the input's name stand next to it
+	// StatFaults: the stat faults that fired, grouped by the Transpile call they fired in and keyed
+	// by (path, n-th stat of that path within the call). The import resolution treats a failing
+	// stat as "not there" and goes on (to the std directory): under such a fault the library's
+	// answer is not an error but ANOTHER script, and that is what tsh has to write. Derived from
+	// the journal after the run; the reference runs the library under exactly these faults.
+	StatFaults [][]*simrt.Fault `json:"-"`
 	Unsettled bool            `json:"unsettled,omitempty"` // the property does not settle whether this vector is an error: exit 0 is accepted if the outputs are right
 }
 
@@ -402,6 +408,38 @@ func (inv *c19Inv) refKey(target string) string {
 	return shortHash(string(jsonOf(inv.Spec.Files))+inv.Spec.Cwd+inv.Spec.Exe+inv.InArg) + ":" + target
 }
 
+// altSpecs returns one reference world per Transpile call in which a stat fault fired: the
+// fault-free pre-state plus exactly those faults, keyed by path and occurrence.
+func (inv *c19Inv) altSpecs() []simrt.WorldSpec {
+	out := []simrt.WorldSpec{}
+	for _, g := range inv.StatFaults {
+		spec := inv.Spec
+		spec.Faults, spec.Events, spec.Args = g, nil, nil
+		spec.MapMode = "canonical"
+		out = append(out, spec)
+	}
+	return out
+}
+
+func altKey(spec *simrt.WorldSpec, inArg, target string) string {
+	return "alt:" + shortHash(string(jsonOf(spec.Files))+string(jsonOf(spec.Faults))+spec.Cwd+spec.Exe+inArg) + ":" + target
+}
+
+// candidates: the library's fault-free answer, plus its answers under the stat faults that
+// fired during one of the Transpile calls of this run.
+func (inv *c19Inv) candidates(refs map[string]*c19Ref, t string) []*c19Ref {
+	out := []*c19Ref{}
+	if r := refs[inv.refKey(t)]; r != nil {
+		out = append(out, r)
+	}
+	for _, spec := range inv.altSpecs() {
+		if r := refs[altKey(&spec, inv.InArg, t)]; r != nil {
+			out = append(out, r)
+		}
+	}
+	return out
+}
+
 func filepathRel(base, target string) (string, error) {
 	return filepath.Rel(base, target)
 }
@@ -434,6 +472,17 @@ func c19Refs(r *Run, invs []*c19Inv, refs map[string]*c19Ref) error {
 			spec.MapMode = "canonical"
 			cases = append(cases, simrt.Case{World: spec, Path: inv.InArg, Target: t, ReturnScript: true})
 			keys = append(keys, k)
+		}
+		for _, spec := range inv.altSpecs() {
+			for _, t := range uniq(inv.Targets) {
+				k := altKey(&spec, inv.InArg, t)
+				if _, ok := refs[k]; ok {
+					continue
+				}
+				refs[k] = nil
+				cases = append(cases, simrt.Case{World: spec, Path: inv.InArg, Target: t, ReturnScript: true})
+				keys = append(keys, k)
+			}
 		}
 	}
 	res, err := r.Env.RunCases(cases)
@@ -532,11 +581,25 @@ func c19Judge(inv *c19Inv, res *TshResult, refs map[string]*c19Ref, st *c19Stats
 	if res.Signal != "" {
 		return "tsh-killed-by-signal", res.Signal + " " + tail(res.Stderr, 300)
 	}
-	allAccepted := true
+	allAccepted := true // by the fault-free reference
+	someAccepted := true // every target is accepted by at least one candidate answer
 	for _, t := range inv.Targets {
 		if ref := refs[inv.refKey(t)]; ref == nil || !ref.Accepted {
 			allAccepted = false
 		}
+		any := false
+		for _, c := range inv.candidates(refs, t) {
+			any = any || c.Accepted
+		}
+		someAccepted = someAccepted && any
+	}
+	matches := func(t, data string) bool {
+		for _, c := range inv.candidates(refs, t) {
+			if c.Accepted && data == string(c.Script) {
+				return true
+			}
+		}
+		return false
 	}
 	clause := func(c string) {
 		if st != nil {
@@ -603,7 +666,7 @@ func c19Judge(inv *c19Inv, res *TshResult, refs map[string]*c19Ref, st *c19Stats
 			clause("4:invalid-options-exit0")
 			return "exit0-on-invalid-options", inv.Why
 		}
-		if !allAccepted {
+		if !someAccepted {
 			clause("4:rejected-program-exit0")
 			return "exit0-on-rejected-program", inv.ProgKind
 		}
@@ -616,7 +679,7 @@ func c19Judge(inv *c19Inv, res *TshResult, refs map[string]*c19Ref, st *c19Stats
 				clause("2:missing-output")
 				return "exit0-output-missing", fmt.Sprintf("target %s: %s does not exist after exit 0 (fault fired: %v)", t, p, faultFired)
 			}
-			if data != string(ref.Script) {
+			if !matches(t, data) {
 				clause("2:wrong-bytes")
 				kind := "exit0-output-differs"
 				if len(ref.Script) > 0 && len(data) == 2*len(ref.Script) && data == string(ref.Script)+string(ref.Script) {
@@ -671,7 +734,7 @@ func c19Judge(inv *c19Inv, res *TshResult, refs map[string]*c19Ref, st *c19Stats
 				continue
 			}
 		}
-		if ref != nil && ref.Accepted && ex && data == string(ref.Script) {
+		if ex && matches(t, data) {
 			continue
 		}
 		clause("3:partial-or-wrong-output-on-error")
@@ -728,6 +791,13 @@ func c19Exec(r *Run, st *c19Stats, invs []*c19Inv, refs map[string]*c19Ref) ([]*
 		if e != nil {
 			return nil, e
 		}
+	}
+	// stat faults that actually fired: the library may have answered for a world without that path
+	for i, inv := range invs {
+		inv.StatFaults = statFaultGroups(inv, out[i])
+	}
+	if err := c19Refs(r, invs, refs); err != nil {
+		return nil, err
 	}
 	for i, inv := range invs {
 		res := out[i]
@@ -1028,7 +1098,49 @@ func c19Probe(r *Run, inv *c19Inv, refs map[string]*c19Ref) (string, string) {
 	if err != nil {
 		return "machinery", err.Error()
 	}
+	inv.StatFaults = statFaultGroups(inv, res)
+	if err := c19Refs(r, []*c19Inv{inv}, refs); err != nil {
+		return "machinery", err.Error()
+	}
 	return c19Judge(inv, res, refs, nil)
+}
+
+// statFaultGroups reads the journal of a run: a Transpile call starts when the main file is
+// read; within a call every stat of a path is counted, and a stat that was made to fail becomes
+// the path-keyed fault (path, n-th stat of that path in this call).
+func statFaultGroups(inv *c19Inv, res *TshResult) [][]*simrt.Fault {
+	in := absJoin(inv.Spec.Cwd, inv.InArg)
+	groups := [][]*simrt.Fault{}
+	var cur []*simrt.Fault
+	counts := map[string]int{}
+	inCall := false
+	flush := func() {
+		if len(cur) > 0 {
+			groups = append(groups, cur)
+		}
+		cur = nil
+	}
+	for _, ev := range res.Journal {
+		switch ev.Op {
+		case simrt.OpRead:
+			if path.Clean(ev.Path) == in || path.Base(ev.Path) == path.Base(in) && !inCall {
+				flush()
+				counts = map[string]int{}
+				inCall = true
+			}
+		case simrt.OpStat:
+			if !inCall {
+				continue
+			}
+			p := path.Clean(ev.Path)
+			if ev.Fault != "" {
+				cur = append(cur, &simrt.Fault{Seq: -1, Op: simrt.OpStat, PathSuffix: p, Nth: counts[p], Kind: ev.Fault})
+			}
+			counts[p]++
+		}
+	}
+	flush()
+	return groups
 }
 
 func c19Minimise(r *Run, inv *c19Inv, v *Violation, refs map[string]*c19Ref) *Violation {
